@@ -136,6 +136,22 @@ CLAIMS = {
                  "and decided by in-process + CLI correspondence; monotonicity and round-trip within the displayed precision by oracle."),
         "ref": "DESIGN.md §4 C14",
     },
+    "C18": {
+        "technique": "Lean 4: the follow-mode walker (dfs and bfs, mutual recursion through visit_dir) is defined with NO fuel — accepted by the termination checker on the measure |inode numbers not yet seen| + |queue|, each function returning in its type that the measure did not grow and that visited_dirs is only extended and duplicate-free; theorems read off those types and one-step unfoldings + CLI correspondence + os.listdir/realpath closure oracle",
+        "text": ("Theorems for every tree, link graph (cycles, mutual and self links, chains, dangling), root and depth window: the model of "
+                 "visit_dir with `symlinks` is a total function without fuel, i.e. the search terminates (every descent or queue push "
+                 "consumes one unseen inode number; the queue loop lowers the measure at each iteration); visited_dirs (canonical paths) "
+                 "never contains a directory twice and a directory already in it is returned from without reading it, so every distinct "
+                 "real directory is traversed at most once per query, in dfs, bfs and over a whole root; entering a directory records its "
+                 "canonical path first; a relative link target is joined to the link's own directory, an absolute one taken as is; a "
+                 "link that does not resolve to a directory contributes its own row only; without the option links are not entered "
+                 "(C01). PARTIAL: completeness (all entries behind links are found), equality of the bfs/dfs entry sets and status 0 / "
+                 "empty stderr are decided by the correspondence and the realpath-closure oracle, not proved; columns whose value is read "
+                 "through the link (size, mode, ... follow links in this mode) are outside the model (name/path/abspath/dir/ext only). "
+                 "Defects D27 (panic above the root), D43 (relative targets), D44/D45 (links to non-directories), D46 (duplicates) "
+                 "were repaired in /repo."),
+        "ref": "DESIGN.md §4 C18",
+    },
     "C19": {
         "technique": "Lean 4 theorems on the archive member loop and member columns (loop = fold of check_file over the member table; LIMIT prefix; column specifications) + CLI correspondence with zipfile-read member tables + metamorphic oracle",
         "text": ("Theorems: without a streamed LIMIT (no limit, or buffered query — D13 fixed) the member loop is exactly the left fold of "
